@@ -7,3 +7,8 @@ package util
 var VerifCrashPoint = func(name string) {}
 
 func verifCrashPoint(name string) { VerifCrashPoint(name) }
+
+// VerifStoragePoint is called at the beginning of a storage operation of the storage in dir (a harness may park it there).
+var VerifStoragePoint = func(name, dir string) {}
+
+func verifStoragePoint(name, dir string) { VerifStoragePoint(name, dir) }
